@@ -24,7 +24,7 @@ RULES = {
     'R11': 'what is not a disconnect is not taken for one (is_connected, once cleared, stays cleared and the client then no longer waits): qb_ipc_us_sock_error_is_disconnected, evaluated for each error code, answers no for the transient results - EAGAIN, ETIMEDOUT, EINTR, EMSGSIZE, ENOMSG, EINVAL and ENOBUFS (the caller\'s receive buffer is too small for the message that is waiting) - and yes for ENOTCONN, ECONNRESET, EPIPE, ESHUTDOWN, EBADF',
     'R12': 'the last reference takes the connection off the service\'s list and gives the service reference back on every path to the free (= C04.R3): a client that dies while its connection is being set up (state ACTIVE, set back to INACTIVE by the teardown) is not freed while still listed',
 }
-FLOORS = {'R1': 9, 'R2': 10, 'R3': 11, 'R4': 7, 'R5': 5, 'R6': 3, 'R7': 2, 'R8': 2, 'R9': 7, 'R10': 3, 'R11': 12, 'R12': 2}
+FLOORS = {'R1': 9, 'R2': 10, 'R3': 11, 'R4': 7, 'R5': 6, 'R6': 3, 'R7': 2, 'R8': 2, 'R9': 7, 'R10': 3, 'R11': 12, 'R12': 2}
 
 POLLNVAL, POLLHUP, POLLIN = 0x20, 0x10, 0x1
 
@@ -459,8 +459,36 @@ def r4(ctx):
     ctx.check('R4', 'recv:timeout-passed-through', bool(tr) and True, r, 'qb_ipcc_recv passes the caller\'s timeout to the transport', '')
 
 
+def _r5_both_files(ctx):
+    """the header file of a ring is removed whatever became of the data file: a server killed between the two removals leaves a header
+    without its data file, and the client's forced close must still remove that header"""
+    prog = ctx.prog
+    f = prog.fn('qb_rb_close_helper')
+    for callee in ('qb_sys_unlink_or_truncate_at', 'qb_sys_unlink_or_truncate'):
+        evs = [ev for ev in f.events('CALL') if ev.callee == callee] + \
+              [st for st in f.events('STORE') if st.rhs is not None and callee_of(unwrap(st.rhs)) == callee]
+        seen, uniq = set(), []
+        for ev in evs:
+            k = (ev.blk, ev.ln)
+            if k not in seen:
+                seen.add(k)
+                uniq.append(ev)
+        if len(uniq) < 2:
+            continue
+        uniq = sorted(uniq, key=lambda e: sum(1 for o in uniq if f.ev_dominates(o, e)))
+        first, second = uniq[0], uniq[1]
+        extra = sorted(set(f.controlling_blocks(second.blk)) - set(f.controlling_blocks(first.blk)))
+        ctx.check('R5', 'close_helper:header-removed-whatever-the-data-removal-returned', not extra, second,
+                  'the two files of a ring are removed under the same conditions',
+                  'the second file of a ring (the header) is removed only if also %s: when the data file is already gone - the server was killed between its two removals - the header file stays in /dev/shm after the client\'s disconnect'
+                  % ' and '.join(estr(f.blocks[x].cond) for x in extra))
+        return
+    raise AnalysisBroken('qb_rb_close_helper: the two file removals were not found')
+
+
 def r5(ctx):
     prog = ctx.prog
+    _r5_both_files(ctx)
     f = prog.fn('qb_ipcc_shm_disconnect')
     dv = None
     for ev in f.events('CALL'):
